@@ -24,6 +24,8 @@ OWN_MODEL = ["env_all", "cmdline", "cgroup", "rpname"]
 CORR_ONLY = ["domain", "ipaddr", "systemd_unit_name"]
 NEITHER = ["snoopy_threads", "failure", "noop"]
 DEFAULT_FMT = b"%FT%T%z"
+# kernel names of root ancestors, including leading / trailing blanks and tabs, only blanks, blank + colon (reported verbatim)
+ROOT_NAMES = [b"rootA", b"with space", b"par) (en", b"fifteen_chars_x", b"\xc5\xbe", b" lead", b"trail ", b"\tx", b"x\t", b"   ", b" :", b" my daemon ", b"\t \t", b": "]
 
 UID_WITH = [0, 1, 2, 33, 1000, 65534]
 UID_WITHOUT = [1001, 1002, 1003, 54321, 2147483647, 2147483648, 2147483653, 4294967294]
@@ -107,7 +109,7 @@ def gen_procfake(rng):
     """a generated /proc tree: SELF -> ... -> root ancestor (PPid 1 or 0) with odd names / malformed files"""
     depth = rng.choice([1, 2, 3, 5, 9])
     pids = ["SELF"] + [str(rng.randrange(2, 4000000)) for _ in range(depth - 1)]
-    names = [rng.choice(["bash", "sshd", "a b", "x)y(z", "n" * 15, "systemd", "ž", "q:r", "tab\\tname"]) for _ in range(depth)]
+    names = [rng.choice(["bash", "sshd", "a b", "x)y(z", "n" * 15, "systemd", "ž", "q:r", "tab\\tname", " lead", "trail ", "\tx", "x\t", "   ", " :", " my daemon ", "\t \t", ""]) for _ in range(depth)]
     end = rng.choice(["1", "1", "0"])
     out = []
     broken = rng.random()
@@ -144,7 +146,11 @@ def gen_state(rng, k, tier):
             us, gs = [u, u, u], [g, g, g]
         s["uids"] = ",".join(map(str, us))
         s["gids"] = ",".join(map(str, gs))
-    s["sess"] = rng.choice(["keep", "setsid", "pgrp"])
+    s["sess"] = rng.choice(["keep", "setsid", "pgrp", "inplace"])
+    if rng.random() < 0.5:
+        s["pre"] = "1"
+    if rng.random() < 0.4:
+        s["post"] = rng.choice(["fork", "vfork"])
     s["cwd"] = rng.choice(["keep", "root", "deep:3", "deep:40", "long:3700", "long:4400", "renamed", "deleted",
                            "dir:" + hexs(rng.choice([b"with space", b"\xc4\x8d\xc5\xa1", b"new\nline", b"tab\there", b"(deleted)", b"x" * 255]))])
     s["stdin"] = rng.choice(["keep", "pipe", "closed", "null", "file"] + ["pty:%d" % rng.choice(UID_WITH + UID_WITHOUT)] * 5)
@@ -159,7 +165,7 @@ def gen_state(rng, k, tier):
     s["env"] = hexlist(env)
     s["envnames"] = hexlist(env_names(env))
     if rng.random() < 0.5:
-        s["chain"] = "%d:%s" % (rng.choice([1, 2, 4]), hexs(rng.choice([b"rootA", b"with space", b"par) (en", b"fifteen_chars_x", b"\xc5\xbe"])))
+        s["chain"] = "%d:%s" % (rng.choice([1, 2, 4]), hexs(rng.choice(ROOT_NAMES)))
     s["thread"] = rng.choice(["main", "main", "other"])
     sec = rng.choice([0, 1, 86399, 951782400, 1790000000, 2147483647, rng.randrange(0, 2 ** 31)])
     s["clock"] = "%d.%d" % (sec, rng.choice([0, 999, 1000, 500000, 999999, rng.randrange(0, 10 ** 6)]))
@@ -303,9 +309,16 @@ def kvs(line):
 
 
 def parse_impl(line):
+    """one case -> list of evaluations (pre / main / post), each with the state measured at that moment"""
+    if "\x1e" in line:
+        return [e for part in line.split("\x1e") for e in parse_impl(part)]
+    return [parse_one(line)]
+
+
+def parse_one(line):
     f = line.split("\t")
-    if f[0] != "ok":
-        return {"status": f[0], "raw": line}
+    if not f[0].startswith("ok:"):
+        return {"status": f[0], "raw": line, "tag": "main"}
     try:
         r = f.index("R")
     except ValueError:
@@ -315,7 +328,7 @@ def parse_impl(line):
         p = x.split("|")
         if len(p) == 5:
             res.append({"name": p[0], "arg": p[1], "size": int(p[2]), "ret": int(p[3]), "buf": p[4]})
-    return {"status": "ok", "state": f[1:r], "results": res}
+    return {"status": "ok", "tag": f[0][3:], "state": f[1:r], "results": res}
 
 
 def in_flight(line):
@@ -335,7 +348,7 @@ def sanity(recipe, st):
     if k.get("gids", "keep") != "keep" and ids[3:6] != [int(x) for x in k["gids"].split(",")]:
         bad.append("gids")
     pid, ppid, sid, pgid, ktid = ids[6], ids[7], ids[8], ids[9], ids[11]
-    if k.get("sess") == "setsid" and not (sid == pid and pgid == pid):
+    if k.get("sess") in ("setsid", "inplace") and not (sid == pid and pgid == pid):
         bad.append("setsid")
     if k.get("sess") == "pgrp" and not (sid == ppid and pgid == pid):
         bad.append("pgrp")
@@ -380,7 +393,12 @@ def run_states(run, exe, lines, tag):
     out = run.run_impl(exe, cp, os.path.join(d, "impl.out"), args=[work], timeout=3000)
     if len(out) != len(lines):
         raise CheckError("impl driver printed %d lines for %d cases" % (len(out), len(lines)))
-    return [parse_impl(l) for l in out]
+    evs = []
+    for ci, l in enumerate(out):
+        for e in parse_impl(l):
+            e["case"] = ci
+            evs.append(e)
+    return evs
 
 
 def model_eval(run, parsed, tag):
@@ -426,7 +444,8 @@ def agree(r, pred, name):
 
 def compare(run, lines, parsed, stream, stats):
     nv = 0
-    for ci, p in enumerate(parsed):
+    for p in parsed:
+        ci = p["case"]
         recipe = kvs(lines[ci])
         if p["status"] != "ok":
             st = p["status"]
@@ -437,7 +456,7 @@ def compare(run, lines, parsed, stream, stats):
                           {"stream": stream, "failing_input": lines[ci], "impl_output": p["raw"][-600:], "cases": [lines[ci]]})
             nv += 1
             continue
-        bad = sanity(recipe, p["state"])
+        bad = sanity(recipe, p["state"]) if p["tag"] == "main" else []
         if bad:
             raise CheckError("constructed and measured state disagree on %s: %s" % (bad, lines[ci][:300]))
         ids = [int(x) for x in p["state"][0].split(",")]
@@ -450,6 +469,16 @@ def compare(run, lines, parsed, stream, stats):
             name = r["name"]
             stats["evaluations"] += 1
             key = "%s" % name
+            if name == "rpname" and p["tag"] == "main" and "chain" in recipe and "procfake" not in recipe and r["size"] >= 17:
+                # ground truth independent of any status parsing: the name given to the root ancestor with prctl(PR_SET_NAME), verbatim;
+                # applies when the /proc/<n>/stat walk of the harness ended right above that ancestor (re-parented to pid 1)
+                depth, nm = recipe["chain"].split(":")
+                if p["state"][10].count(":") == int(depth) + 1 and b"\n" not in unhex(nm) and b"\\" not in unhex(nm):
+                    stats["compared"]["rpname-vs-prctl-name"] = stats["compared"].get("rpname-vs-prctl-name", 0) + 1
+                    if r["buf"] != hexs(unhex(nm)[:15]):
+                        run.violation("spec:rpname", "spec_violation", "rpname returned %s, the root ancestor was named %s with prctl(PR_SET_NAME)" % (r["buf"], nm),
+                                      {"stream": stream, "failing_input": lines[ci], "datasource": "rpname", "impl_output": "%d\t%s" % (r["ret"], r["buf"]), "evaluation": p["tag"], "cases": [lines[ci]]})
+                        nv += 1
             if name in TABLE or name in OWN_MODEL:
                 m, dcm = agree(r, r["ev"], name), agree(r, r["doc"], name)
                 if m is None and dcm is None:
@@ -461,9 +490,10 @@ def compare(run, lines, parsed, stream, stats):
                     if name == "timestamp" and ids[12] >= 2 ** 31:
                         sig = "spec:timestamp:int-cast-2038"
                     run.violation(sig, "spec_violation",
-                                  "%s(%s) with a %d-byte buffer returned %d/%s; the documented value in the measured state is %s" % (name, r["arg"], r["size"], r["ret"], r["buf"][:80], r["doc"][:100]),
+                                  "%s(%s) with a %d-byte buffer returned %d/%s; the documented value in the state measured at that moment is %s (evaluation '%s' of the case: pre = before the "
+                                  "state changes, main = in the constructed state, post = in a forked/vforked child)" % (name, r["arg"], r["size"], r["ret"], r["buf"][:80], r["doc"][:100], p["tag"]),
                                   {"stream": stream, "failing_input": lines[ci], "datasource": name, "arg": r["arg"], "size": r["size"], "impl_output": "%d\t%s" % (r["ret"], r["buf"]),
-                                   "model_output": r["ev"], "documented": r["doc"], "measured_state": p["state"][:6], "cases": [lines[ci]]})
+                                   "model_output": r["ev"], "documented": r["doc"], "evaluation": p["tag"], "measured_state": p["state"][:6], "cases": [lines[ci]]})
                     nv += 1
                 elif m is False:
                     run.violation("corr:%s" % name, "correspondence",
@@ -514,6 +544,7 @@ def dist_add(dist, recipe, st):
     env = recipe.get("env", "inherit")
     inc("env", "NULL" if env == "~" else ("empty" if env == "[]" else ("inherit" if env == "inherit" else ("huge" if env.count(",") > 40 or len(env) > 4000 else "small"))))
     inc("chain", "orphaned-chain" if "chain" in recipe else "as-is")
+    inc("steps", ("pre+" if recipe.get("pre") == "1" else "") + "main" + ("+post-" + recipe["post"] if "post" in recipe else ""))
     inc("thread", recipe.get("thread", "main"))
     inc("login", recipe.get("login", "keep").split(":")[0])
     inc("utmp", "alternate-utmp-entry" if "utmp" in recipe else "none")
@@ -571,15 +602,15 @@ def check(run):
                               {"stream": "real-clock", "failing_input": recipe_line(real), "cases": [recipe_line(real)]})
                 nv += 1
     dist = {}
-    for l, p in zip(lines, parsed):
-        if p["status"] == "ok":
-            dist_add(dist, kvs(l), p["state"])
+    for p in parsed:
+        if p["status"] == "ok" and p["tag"] == "main":
+            dist_add(dist, kvs(lines[p["case"]]), p["state"])
     known = [k for k in run.load_known() if k[0] == run.prop]
     fresh = [v for v in run.violations if not any(re.fullmatch(k[1], v["sig"]) for k in known)]
     if not ok and not fresh:
         run.violation("proof:%s" % failed, "proof", "proof obligation no longer checks: %s\n%s" % (failed, log[-1500:]), {"theorem": failed, "coq_log": log[-3000:]})
     distinct = set()
-    for l, p in zip(lines, parsed):
+    for p in parsed:
         if p["status"] == "ok":
             for r in p["results"]:
                 distinct.add((r["name"], r["arg"], r["size"], r["ret"], r["buf"]))
@@ -622,8 +653,9 @@ def replay(run, path):
     model_eval(run, parsed, "replay")
     stats = {"evaluations": 0, "compared": {}, "unmodelled": {}}
     nv = compare(run, cases, parsed, "replay", stats)
-    for c, p in zip(cases, parsed):
-        print("case:", c[:300])
+    for p in parsed:
+        c = cases[p["case"]]
+        print("case:", c[:300], "| evaluation:", p.get("tag"))
         if p["status"] != "ok":
             print(" impl:", p["raw"][:300])
             continue
